@@ -121,10 +121,14 @@ CLAIMED = {
    text=("Machine-checked proofs, valid for any carrier hence for the binary64 screen, that over any sequence of add-row steps the working array "
          "keeps its stencil_length x nx shape and the exposed screen its requested N x N shape (also when the working size is larger), that one "
          "step shifts the exposed screen down by exactly one row with the new row on top, the closed form after k steps, and that both variants' "
-         "steps preserve the invariant. Histories (incl. reads/repr and wrap-around lengths) are run on the implementation against the Coq state "
-         "machine; stationarity is checked numerically (fixed point of the covariance recursion, spectral radius < 1)."),
+         "steps preserve the invariant; and, over the reals, that a von Karman step updates the stencil vector as Z' = F Z + Gm b, that covariances "
+         "then propagate as F Sigma F^T + Gm Gm^T, and that the theoretical von Karman covariance built by the model from the true pixel "
+         "separations is a fixed point of that recursion for every size, pixel scale, r0, L0 and stencil depth (translation invariance of the "
+         "blocks proved from the geometry; only C04's LAPACK contracts assumed). Histories (incl. reads/repr and wrap-around lengths) are run on "
+         "the implementation against the Coq state machine; each new row is checked to be A Z + B b of the recorded innovation; uniqueness and "
+         "convergence to the fixed point (spectral radius < 1) are checked numerically."),
    ref="5 C05",
-   note="Finiteness and convergence to the stationary covariance are observed/numerical, not proved; A, B taken from the object."),
+   note="Finiteness, and uniqueness/convergence to the stationary covariance (spectral radius of the recursion), are observed/numerical, not proved."),
  "C12": dict(
    technique="Coq proof (integer arithmetic unbounded; exact rational integration and polynomial identities bounded by kernel computation) over a hand model + vm_compute correspondence",
    text=("Machine-checked proofs that the Noll index is a bijection onto the valid (n,m) with the n-then-|m| order and the even/cos, odd/sin "
